@@ -37,6 +37,7 @@ def exp_axioms(I):
         ax.append(z3.Implies(z3.Not(z3.fpIsNaN(x)), z3.And(z3.fpGEQ(t, z), z3.Not(z3.fpIsNegative(t)))))
         ax.append(z3.Implies(z3.fpEQ(x, z3.fpMinusInfinity(F)), z3.fpIsZero(t)))
         ax.append(z3.Implies(z3.fpEQ(x, z3.fpPlusInfinity(F)), z3.fpIsInf(t)))
+        ax.append(z3.Implies(z3.fpIsZero(x), t == one))
         ax.append(z3.Implies(z3.fpGEQ(x, z), z3.fpGEQ(t, one)))
         ax.append(z3.Implies(z3.fpLT(x, z), z3.fpLEQ(t, one)))
     for (x1, t1) in I.exp_terms:
@@ -177,7 +178,21 @@ def main():
             if not ok:
                 return dict(reproduced=True, inputs=dict(key=[int(t) for t in kk], cur=float(vals[0]), prop=float(vals[1]), corr=float(vals[2]),
                                                          x=float(vals[3]), xp=float(vals[4])), observed=obs, note="; ".join(problems))
-        return dict(reproduced=False, note=f"real mh_step satisfies the property at the model's inputs (bits={b}); tried {tried}")
+        # the solver's point did not reproduce (e.g. a model that leans on an impossible value of the uninterpreted exp): confirmation
+        # sweep over the special values of the three float inputs around the model, with an ordinary key and a key whose draw is exactly 0.0
+        f32 = np.float32
+        zero_key = find_key(0, seed=chk.seed) if b != 0 or key is None else key
+        keys = [kk for kk in (zero_key, np.asarray(jax.random.PRNGKey(1))) if kk is not None]
+        specials = [f32(np.nan), f32(np.inf), f32(-np.inf), f32(0.0), f32(1.0), f32(-1.0)]
+        for c_ in [vals[0]] + specials:
+            for p_ in [vals[1]] + specials:
+                for k_ in [vals[2]] + specials:
+                    for kk in keys:
+                        ok, problems, obs = real_check(kk, c_, p_, k_, vals[3], vals[4])
+                        if not ok:
+                            return dict(reproduced=True, inputs=dict(key=[int(t) for t in kk], cur=float(c_), prop=float(p_), corr=float(k_), x=float(vals[3]), xp=float(vals[4])),
+                                        observed=obs, note="; ".join(problems) + " (found in the special-value neighbourhood of the solver's model)")
+        return dict(reproduced=False, note=f"real mh_step satisfies the property at the model's inputs (bits={b}) and at 343 special-value combinations around it; tried {tried}")
 
     obs_ = [Obligation(n, [enc], (lambda g: (lambda V: (ax, g)))(g), timeout_s=300, replay=replay, signature="mh_step:" + n) for n, g in built.items()]
     # translator validation on concrete points (real code vs encoding, bit exact except exp)
@@ -193,7 +208,7 @@ def main():
     chk.run(obs_)
     chk.bounds += ["all float32 values of current/proposed log-density, correction and one carried state scalar (incl. +-inf, NaN, -0)",
                    "all 2^32 values of the random word behind jax.random.uniform", "no other bound: mh_step has no loops"]
-    chk.assume("exp is an uninterpreted float32 function constrained by: NaN<->NaN, non-negative, exp(-inf)=+0, exp(+inf)=+inf, >=1 on x>=0, <=1 on x<0, monotone",
+    chk.assume("exp is an uninterpreted float32 function constrained by: NaN<->NaN, non-negative, exp(-inf)=+0, exp(+inf)=+inf, exp(+-0)=1, >=1 on x>=0, <=1 on x<0, monotone",
                "random_bits(key) is an arbitrary 32-bit word (ideal PRNG)",
                "the log ratio may be associated in any of the orders " + ", ".join(ORDERS),
                "model interface: DictInterface whose log_prob reads a state entry (update_state/log_prob traced from the real class)")
